@@ -170,6 +170,14 @@ func TestC17(t *testing.T) {
 		}
 		synctest.Test(t, func(t *testing.T) { c03Double(t, run, k, run.Rand(n+2000+k)) })
 	}
+	// two overlapping deploys of one service (the scenario C02 and C03 share), then remove
+	for k := 0; k < run.N(8, 200); k++ {
+		desc := map[string]any{"part": "overlapping-deploys", "k": k}
+		if !run.Mine(n+3000+k, desc) {
+			continue
+		}
+		synctest.Test(t, func(t *testing.T) { overlapDeploys(t, run, k, run.Rand(n+3000+k)) })
+	}
 	// redeploys onto the very targets the service already has, then a command that lets go of them
 	for k := 0; k < run.N(24, 600); k++ {
 		desc := map[string]any{"part": "redeploy-onto-the-same-targets", "k": k}
